@@ -1,5 +1,6 @@
 import HidVerif.Proofs.Guards
 import HidVerif.Hid.Machine
+import HidVerif.Proofs.CoreMain
 /-!
 # C05 — runtime faults are detected exactly, first, and terminally
 
@@ -49,5 +50,22 @@ theorem error_stub_trace {p : Prog} {B : Nat} (hp : Placed p B) (m : Mem) :
 
 /-- the reference semantics raises the same faults: division by zero -/
 example (E : Hid.Env) (a : Nat) : Hid.binArith E .div a 0 = none := by simp [Hid.binArith]
+
+/-! ## The sequential integer core: division by zero is caught -/
+
+/-- **C05 on the core**: whenever the source semantics faults with a division by zero, a checked
+build prints what was printed before, then `division_by_zero`, `error`, and stays in the
+terminal loop (no machine fault, no wrong value). -/
+theorem core_division_by_zero (cf : Core.Config) (body : Core.S) (hw : 2 ≤ cf.w) (hck : cf.checked = true)
+    (hB : Core.funcLen cf.checked body + stdlibLength < 256 ^ cf.w)
+    (hSE : 5 * cf.w + cf.stackWords * cf.w + cf.w < 256 ^ cf.w)
+    (hwf : Core.wfS [] body = true)
+    (fuel : Nat) (env' : Core.Env) (tr : List Ev)
+    (hex : Core.exec (256 ^ cf.w) (8 * cf.w) fuel (fun _ => 0) body = some (env', tr, .div0))
+    (hroom : Core.pkS cf.w cf.w body ≤ (cf.stackWords + 1) * cf.w) :
+    ∃ mEnd, Exec (sphinx (Core.coreProg cf body)) (Core.coreInit cf body)
+      (tr ++ [Ev.flag "division_by_zero", Ev.flag "error"]) ⟨tntPc (Core.funcLen cf.checked body), mEnd⟩ :=
+  let ⟨m, h, _⟩ := Core.core_correct cf body hw hB hSE hwf fuel env' tr .div0 hex (fun _ => hck) hroom
+  ⟨m, h⟩
 
 end HidVerif.Props.C05
